@@ -14,9 +14,12 @@ EXPLANATION = ("Rotating sink, size side. R1: write_log performs, on every path,
                "'more files than max_backup_files', it is the oldest element of the list and is popped together with the removal; "
                "'rotation stops' is taken only when overwriting is off and before anything was renamed or removed. R4: the rename "
                "chain walks oldest to newest (reverse of the newest-at-front insertion) so no rename overwrites a file that is still "
-               "to be renamed. Checked for RotatingSink<FileSink> and RotatingSink<JsonFileSink>.")
-NOT_DECIDED = ("File-size arithmetic for all size sequences, restart recovery (_clean_and_recover_files string parsing), the ordering "
-               "of names as values; for the JSON sink the tracked size counts the text statement, not the JSON line (noted).")
+               "to be renamed. R5 (start-up): files are deleted only under remove_old_files() and mode \"w\"; append mode re-registers and "
+               "deletes nothing; recovered files are ordered newest first; the constructor recovers, opens, registers and takes the "
+               "current size; a directory entry is deleted or adopted only when its name starts with '<stem>.' and has the sink's "
+               "extension (unrelated files present are left alone). Checked for RotatingSink<FileSink> and RotatingSink<JsonFileSink>.")
+NOT_DECIDED = ("File-size arithmetic for all size sequences, the index/date parsing of recovered names (R5 decides which entries may be "
+               "touched and in which mode, not what is parsed out of them), the ordering of names as values; for the JSON sink the tracked size counts the text statement, not the JSON line (noted).")
 ASSUMPTIONS = ["the base sink writes the whole statement or throws (StreamSink::safe_fwrite)"]
 RS = "quill::RotatingSink::"
 
@@ -247,6 +250,24 @@ def recover(ctx, facts, f):
                     asc = True
     ctx.ob("C14.R5c", site + ":recovered-newest-first", ok and asc,
            "recovered files are ordered by ascending index (newest first, the order the rename chain relies on)", fn=f)
+    # R5e: unrelated files in the directory are neither deleted nor adopted: every removal / registration in the scan is reachable
+    # only through 'the entry has the sink's extension' and 'the entry's name starts with <stem>.'
+    pref, ext = [], []
+    for bid, b in g.blocks.items():
+        c = g.term_cond(bid)
+        nc = norm_cmp(c) if c is not None else None
+        if nc and nc[0] in ("==", "!=") and "0" in (nc[1], nc[2]) and \
+                any(is_call(x, r"basic_string<.*>::(find|rfind|compare)$") and any(is_call(y, r"path::stem$") for a in x["args"] for y in walk(a)) for x in walk(c)):
+            pref.append((bid, "T" if nc[0] == "==" else "F"))
+        cc = strip(c) if c is not None else None
+        if isnode(cc) and is_call(cc, r"operator(==|!=)") and sum(1 for x in walk(cc) if is_call(x, r"path::extension$")) >= 2:
+            ext.append((bid, "T" if "operator==" in cc["callee"] else "F"))
+    acts = sorted(set(rem) | set(reg))
+    okp = bool(pref) and bool(acts) and not g.exists_path([g.entry_node], acts, avoid_edges=pref)
+    oke = bool(ext) and bool(acts) and not g.exists_path([g.entry_node], acts, avoid_edges=ext)
+    ctx.ob("C14.R5e", site + ":unrelated-files-untouched", okp and oke,
+           "a directory entry is deleted or adopted into the sequence only when its name starts with '<stem>.' (a position-0 match, "
+           "%d test(s): %s) and carries the sink's extension (%d test(s): %s)" % (len(pref), okp, len(ext), oke), fn=f)
     ctor = [x for x in facts.fns if x.config == "A" and x.short == "quill::RotatingSink::RotatingSink" and x.rec.get("inits") and inst(x) == inst(f)]
     if ctor:
         c = ctor[0]
